@@ -61,6 +61,9 @@ impl MT292 {
             });
         }
 
+        // Reject anything left after the last field of the type
+        verify_parser_complete(&parser)?;
+
         Ok(MT292 {
             field_20,
             field_21,
